@@ -460,13 +460,44 @@ func (b *Body) assumeInvariants(lp *Loop, reach *T, st State) {
 // Obligations
 
 func (ft *FT) clauseTags(c *Clause) []string {
-	if len(c.Tags) > 0 {
+	if len(c.Tags) > 0 && c.Kind != "invariant" {
 		return c.Tags
 	}
-	if ft.con != nil {
-		return ft.con.Tags
+	// untagged clauses, and loop invariants (every postcondition proof of the
+	// function leans on them), count for every property of the function
+	return unionTags(c.Tags, ft.allTags())
+}
+
+// allTags is the union of the function-level tags and all clause tags.
+func (ft *FT) allTags() []string {
+	if ft.con == nil {
+		return nil
 	}
-	return nil
+	if ft.allTagsC != nil {
+		return ft.allTagsC
+	}
+	out := append([]string{}, ft.con.Tags...)
+	for _, cs := range [][]*Clause{ft.con.Requires, ft.con.Ensures, ft.con.Invariants, ft.con.Calls, ft.con.Boundary} {
+		for _, c := range cs {
+			out = unionTags(out, c.Tags)
+		}
+	}
+	ft.allTagsC = out
+	return out
+}
+
+func unionTags(a, b []string) []string {
+	seen := map[string]bool{}
+	var out []string
+	for _, l := range [][]string{a, b} {
+		for _, t := range l {
+			if !seen[t] {
+				seen[t] = true
+				out = append(out, t)
+			}
+		}
+	}
+	return out
 }
 
 func (ft *FT) safetyTags() []string {
